@@ -76,7 +76,7 @@ CHECKS = {
          "3/C05", "HIST-X"),
  "C11": ("exploration",
          "bounded-exhaustive enumeration of all strings up to length L per grammar position against hand-written recognisers",
-         "All strings of length <=3 (quick, 3616 x 26 positions) / <=4 (thorough) over a 15-character alphabet (incl. a non-ASCII letter and a line feed) in each of 26 grammar positions and all token words of length <=4/<=6 in the 7 structured positions are run through the real command; the verdict must equal hand-written scanners of the documented grammar and each rejection must name the offending key; creation truth table, reserved getters, todo exemption, documented !value forms (read from docs/SERVICES.md), and all 1-/2-(3-)subsets of 25 validation-stage and 8 compile-stage defects (all reported in one run).",
+         "All strings of length <=3 (quick, 3616 x 28 positions) / <=4 (thorough) over a 15-character alphabet (incl. a non-ASCII letter and a line feed) in each of 28 grammar positions and all token words of length <=4/<=6 in the 7 structured positions are run through the real command; the verdict must equal hand-written scanners of the documented grammar and each rejection must name the offending key; creation truth table, reserved getters, todo exemption, documented !value forms (read from docs/SERVICES.md), and all 1-/2-(3-)subsets of 25 validation-stage and 8 compile-stage defects (all reported in one run).",
          "trusted: hand-written recognisers (no regexp); stage-wise reading of 'all violations are reported'",
          "3/C11", "CFG-X"),
  "C15": ("model_checking",
